@@ -144,7 +144,11 @@ func FindArrayIndex(str string) ([][]int, error) {
 		switch r {
 		case '\\':
 			{
-				i++
+				// an escape inside a string; a back-ticked identifier has
+				// none (`dir\` ends at its second back-tick)
+				if hold == nil || *hold != '`' {
+					i++
+				}
 			}
 		case '"':
 			{
@@ -218,13 +222,20 @@ func FixIdiomaticArray(input string) (string, error) {
 	offset := 0
 	for _, index := range indexes {
 		str := input[:index[0]+offset]
+		// a bracket glued to a word (THEN[1], SELECT[1]) still starts an
+		// array: the function name does not run into the word
+		glue := 0
+		if at := index[0] + offset; at > 0 && (input[at-1] == '_' || input[at-1] >= '0' && input[at-1] <= '9' || input[at-1] >= 'a' && input[at-1] <= 'z' || input[at-1] >= 'A' && input[at-1] <= 'Z') {
+			str += " "
+			glue = 1
+		}
 		str += _TOKEN
 		str += "("
 		str += input[index[0]+offset+1 : index[1]+offset]
 		str += ")"
 		str += input[index[1]+offset+1:]
 		input = str
-		offset += len(_TOKEN)
+		offset += len(_TOKEN) + glue
 	}
 	return input, nil
 }
